@@ -65,7 +65,7 @@ structure Transport where
   playing : Bool
 deriving DecidableEq, Repr
 
-/-- mirrors: the forward wrap of Transport::increment_position / Transport::seek_to:
+/-- mirrors: sound/transport.rs::Transport::increment_position, sound/transport.rs::Transport::seek_to (the forward wrap):
     `if p >= le { p = ls + (p - ls) % (le - ls) }` — the closed form of the loop
     `while p >= le { p -= le - ls }` the code used to run (`Proofs/TransportLemmas.lean`: `wrapDownLoop`,
     `wrapDown_eq_loop`).  `le - ls` underflows when `le < ls`, `% 0` panics when `le = ls`
@@ -76,7 +76,7 @@ def wrapDown (p ls le : Nat) : Except Fault Nat :=
   else if le = ls then .error .panic
   else .ok (ls + (p - ls) % (le - ls))
 
-/-- mirrors: the backward wrap of Transport::decrement_position:
+/-- mirrors: sound/transport.rs::Transport::decrement_position (the backward wrap):
     `if p <= ls { p = le - (ls - p) % (le - ls) }` — the closed form of `while p <= ls { p += le - ls }`. -/
 def wrapUpDec (p ls le : Nat) : Except Fault Nat :=
   if ls < p then .ok p
@@ -84,7 +84,7 @@ def wrapUpDec (p ls le : Nat) : Except Fault Nat :=
   else if le = ls then .error .panic
   else .ok (le - (ls - p) % (le - ls))
 
-/-- mirrors: the backward wrap of Transport::seek_to:
+/-- mirrors: sound/transport.rs::Transport::seek_to (the backward wrap):
     `if p < ls { p = le - 1 - (ls - p - 1) % (le - ls) }` — the closed form of `while p < ls { p += le - ls }`. -/
 def wrapUpSeek (p ls le : Nat) : Except Fault Nat :=
   if ls ≤ p then .ok p
